@@ -101,6 +101,24 @@ def check_property(pid, tier, seed):
                     lf.write(out)
                 cmds.append(f"(cd <scratch>/{c} && cargo kani -Z function-contracts -Z stubbing --exact "
                             f"--harness <{len(hs)} harnesses> -j {JOBS})")
+                # harnesses the tool could not finish (solver time limit, out of memory while several solvers ran side
+                # by side): one more attempt each, alone (-j 1) and with twice the time, before they count as undecided
+                again = [h for h in hs if res.get(h.full) is None or res[h.full].status in ("timeout", "error", "missing")]
+                if again and len(again) <= 4:
+                    log(f"[{pid}] kani: crate {c}: retrying alone: {[h.name for h in again]}")
+                    for h in again:
+                        old_t = h.timeout
+                        h.timeout = old_t * 2
+                        try:
+                            res2, out2, secs2 = K.run_crate(scratch, c, [h], jobs=1)
+                        finally:
+                            h.timeout = old_t
+                        with open(os.path.join(VERIF, "logs", f"{pid}-{c.replace('/', '_')}.kani.log"), "a") as lf:
+                            lf.write("\n==== retry alone: " + h.name + "\n" + out2)
+                        if res2.get(h.full) is not None and res2[h.full].status not in ("timeout", "error", "missing"):
+                            res[h.full] = res2[h.full]
+                            notes.append(f"{h.name}: decided on a second attempt run alone (first attempt: tool limit under parallel load)")
+                        secs += secs2
                 kres.update(res)
                 log(f"[{pid}] kani: crate {c}: done in {secs:.0f}s")
         for h in sel:
